@@ -842,6 +842,11 @@ def run(ctx):
             ctx.count("project_cases_cut_by_budget")
             break
         project_case(ctx, rng, quick)
+    # core.run_check starts the failing-input search only when NO concrete finding exists; the known defect (concrete, listed
+    # in known_findings.json) must not suppress it
+    broken = [f for f in ctx.findings if not f.concrete]
+    if broken and not [f for f in ctx.findings if f.concrete and f.key != KNOWN_DEFECT_KEY]:
+        search(ctx, broken, 45 if quick else 400)
     known_defect_probe(ctx)
 
 
@@ -850,7 +855,7 @@ def search(ctx, broken, budget_s):
     visibly violates the property — more cases of every kind, longer runs."""
     t0 = time.time()
     rng = ctx.rng
-    while time.time() - t0 < budget_s and not any(f.concrete for f in ctx.findings):
+    while time.time() - t0 < budget_s and not any(f.concrete and f.key != KNOWN_DEFECT_KEY for f in ctx.findings):
         case = gen_case(rng, True, rng.choice(["trace", "trace", "converge"]))
         if case["kind"] == "trace":
             case["methods"] = case["methods"] + [rng.choice(["1site", "2site"]) for _ in range(2)]
